@@ -32,6 +32,7 @@ def check(chk, thorough=False):
     chk.run('C19.m', 'R-ESCAPE', 'the report opportunity is reached on both arms of the forwarder: log_name(), called on the success arm AND inside the failure arm, only formats the destination and the identity (nothing that can raise for a container whose payload data was taken out by fragmentation)', lambda ob: c19m(tree, ob), floor=2)
     chk.run('C19.n', 'R-PAIR', 'every bundle put on the forwarding queue gets its own idle call of the forwarder, which handles one bundle per call', lambda ob: c19n(tree, ob), floor=2)
     chk.run('C19.f', 'R-TYPE', 'the reported reason is a reason code (= C12.f)', lambda ob: c12f(tree, ob), floor=2)
+    chk.run('C19.o', 'R-FLOW', 'a report finds the route that exists when it is sent: the transmit route is taken from a walk of the table each time, first match, never from remembered lookups (= C05.k)', lambda ob: __import__('sa.props.c05', fromlist=['c05k']).c05k(tree, ob), floor=3)
     chk.run('C19.g', 'R-WHO', 'the forwarding path does not rewrite report-to / flags / source / creation timestamp of the subject before its report is generated (= C11.a restricted to report-relevant fields)', lambda ob: c11a(tree, ob, only=('report_to', 'bundle_flags', 'source', 'create_ts')), floor=1)
 
 
@@ -211,6 +212,19 @@ def c19c(tree, ob):
         ob.violate(AGENT, ff.qual, src(a), 'the report of the processed bundle is not sent through Agent.send_bundle (valid CRCs) when one was generated', a)
     else:
         ob.site(AGENT, a, 'report sent through Agent.send_bundle when generated')
+    # whether a report is due is decided in one place, BundleContainer.create_report() (flags, report-to, recorded actions):
+    # _finish_bundle asks it for every bundle.  A return ahead of that question ("never report on an administrative record")
+    # withholds reports that were requested -- the deletion report for a refused ACME request among them.
+    crs = [c for c in calls_in(ff.func) if isinstance(c.func, ast.Attribute) and c.func.attr == 'create_report']
+    cr = one(crs, 'create_report() in _finish_bundle', ob)
+    early = [r for r in walk_local(ff.func) if isinstance(r, ast.Return) and ff.node(cr) not in ff.cfg.reachable([ff.node(r)]) and not ff.dominates(cr, r)[0]]
+    if early:
+        ob.violate(AGENT, ff.qual, 'return ahead of create_report() under {}'.format(' and '.join(('' if p else 'not ') + t for (t, p) in (ff.facts(early[0]) or ()))[:90] or 'a test'),
+                   'some processed bundles are never asked whether a report is due: a report that was requested (and is not excluded by create_report) is not sent', early[0], sure=True)
+    elif not ff.cfg.must_pass(ff.cfg.entry, ff.cfg.exit, {ff.node(cr)}, include_exc=False)[0]:
+        ob.violate(AGENT, ff.qual, 'a way through _finish_bundle without create_report()', 'some processed bundles are never asked whether a report is due', ff.func)
+    else:
+        ob.site(AGENT, cr, 'every processed bundle is asked for its report')
 
 
 def c19e(tree, ob):
